@@ -132,15 +132,19 @@ func gschemaCoq(types *federation.SchemaWithFederationInfo, c *Case) schemaInfo 
 
 // ---- queries ----
 
-func dirsCoq(d *Dir, vars map[string]bool) string {
-	if d == nil {
-		return "[]"
+func dirsCoq(s Sel, vars map[string]bool) string {
+	var xs []string
+	for _, d := range []*Dir{s.Dir, s.Dir2} {
+		if d == nil {
+			continue
+		}
+		v := d.Val
+		if d.Var != "" {
+			v = vars[d.Var]
+		}
+		xs = append(xs, "("+vh.CoqString(d.Name)+", "+vh.CoqBool(v)+")")
 	}
-	v := d.Val
-	if d.Var != "" {
-		v = vars[d.Var]
-	}
-	return "[(" + vh.CoqString(d.Name) + ", " + vh.CoqBool(v) + ")]"
+	return vh.CoqList(xs)
 }
 
 func argsJSON(args []KV) map[string]interface{} {
@@ -166,9 +170,9 @@ func (p *nodePrinter) selsCoq(typ string, sels []Sel) string {
 		switch {
 		case s.Spread != "":
 			f := p.frags[s.Spread]
-			xs = append(xs, "NFrag "+vh.CoqString(f.On)+" [] "+p.selsCoq(p.innerType(typ, f.On), f.Subs))
+			xs = append(xs, "NFrag "+vh.CoqString(f.On)+" "+dirsCoq(s, p.c.Vars)+" "+p.selsCoq(p.innerType(typ, f.On), f.Subs))
 		case s.On != "":
-			xs = append(xs, "NFrag "+vh.CoqString(s.On)+" "+dirsCoq(s.Dir, p.c.Vars)+" "+p.selsCoq(p.innerType(typ, s.On), s.Subs))
+			xs = append(xs, "NFrag "+vh.CoqString(s.On)+" "+dirsCoq(s, p.c.Vars)+" "+p.selsCoq(p.innerType(typ, s.On), s.Subs))
 		default:
 			argkey := ""
 			sub := "[]"
@@ -191,7 +195,7 @@ func (p *nodePrinter) selsCoq(typ string, sels []Sel) string {
 				}
 			}
 			xs = append(xs, fmt.Sprintf("NField %s %s %s %s %s %s %s", vh.CoqString(s.Alias), vh.CoqString(s.Name), vh.CoqJSON(argsJSON(s.Args)),
-				vh.CoqString(argkey), dirsCoq(s.Dir, p.c.Vars), vh.CoqBool(len(s.Subs) > 0), sub))
+				vh.CoqString(argkey), dirsCoq(s, p.c.Vars), vh.CoqBool(len(s.Subs) > 0), sub))
 		}
 	}
 	return vh.CoqList(xs)
